@@ -179,8 +179,13 @@ def collect_jobs(props, repo):
                     caught_by = json.load(open(mf)).get('caught_by', [])
                 except Exception:
                     caught_by = []
-            targets = sorted({c.split('.')[0] for c in caught_by}) or \
-                [sid.split('-')[0]]
+            if not caught_by:
+                # not yet evaluated by tools/seed_matrix.py (a seed that was
+                # just stored): listed as skipped, never a failed self-test
+                # of the registered check
+                skipped.append('seed:' + sid + ' (no caught_by yet)')
+                continue
+            targets = sorted({c.split('.')[0] for c in caught_by})
             with open(pf) as fh:
                 diff = fh.read()
             ov = apply_unified_diff(lambda p: _read(repo, p), diff)
